@@ -109,26 +109,82 @@ def num_eval(expr: ast.expr, env: dict[str, float | int]):
     raise AnalysisError(f"expression outside the arithmetic language: {t}")
 
 
+def _block_terminates(block: list[ast.stmt]) -> bool:
+    """Control never falls out of the end of the block (return / raise / continue / break, or an if/else whose arms all do)."""
+    if not block:
+        return False
+    last = block[-1]
+    if isinstance(last, (ast.Return, ast.Raise, ast.Continue, ast.Break)):
+        return True
+    if isinstance(last, ast.If):
+        return _block_terminates(last.body) and _block_terminates(last.orelse)
+    return False
+
+
 def path_condition(root: ast.AST, target: ast.AST) -> list[tuple[ast.expr, bool]]:
-    """Tests of the `if` statements enclosing target (outermost first) with the polarity of the branch that contains it."""
+    """Tests that hold whenever target is reached, outermost first: the `if` statements enclosing it with the polarity of the branch that
+    contains it, and guard clauses - an earlier `if c: ...; return/raise/continue/break` (or an if/else with one such arm) in an enclosing
+    block contributes the polarity under which control goes on."""
     out: list[tuple[ast.expr, bool]] = []
+
+    def stores(node: ast.AST) -> set[str]:
+        out_: set[str] = set()
+        for x in ast.walk(node):
+            if isinstance(x, ast.Name) and isinstance(x.ctx, (ast.Store, ast.Del)):
+                out_.add(x.id)
+            elif isinstance(x, ast.Attribute) and isinstance(x.ctx, (ast.Store, ast.Del)):
+                out_.add(ast.unparse(x))
+        return out_
+
+    def reads(test: ast.expr) -> set[str]:
+        return {x.id for x in ast.walk(test) if isinstance(x, ast.Name)} | {ast.unparse(x) for x in ast.walk(test) if isinstance(x, ast.Attribute)}
+
+    def visit_block(block: list[ast.stmt], acc: list[tuple[ast.expr, bool]]) -> bool:
+        guards: list[tuple[ast.expr, bool]] = []
+        for st in block:
+            changed = stores(st)
+            # a guard only keeps holding while nothing it reads is assigned again
+            guards = [g for g in guards if not (reads(g[0]) & changed)]
+            if visit(st, list(acc) + guards):
+                return True
+            if isinstance(st, ast.If):
+                bt, et = _block_terminates(st.body), _block_terminates(st.orelse)
+                if bt and not et and not (reads(st.test) & stores(st)):
+                    guards.append((st.test, False))
+                elif et and not bt and not (reads(st.test) & stores(st)):
+                    guards.append((st.test, True))
+        return False
 
     def visit(node: ast.AST, acc: list[tuple[ast.expr, bool]]) -> bool:
         if node is target:
             out.extend(acc)
             return True
         if isinstance(node, ast.If):
-            for b in node.body:
-                if visit(b, acc + [(node.test, True)]):
-                    return True
-            for b in node.orelse:
-                if visit(b, acc + [(node.test, False)]):
-                    return True
+            if visit_block(node.body, acc + [(node.test, True)]):
+                return True
+            if visit_block(node.orelse, acc + [(node.test, False)]):
+                return True
             # the test itself
             return any(x is target for x in ast.walk(node.test)) and (out.extend(acc) or True)
-        for c in ast.iter_child_nodes(node):
-            if visit(c, acc):
-                return True
+        if isinstance(node, (ast.While, ast.For, ast.AsyncFor)):
+            # a guard inside a loop body says nothing about the statements after the loop, and nothing carries over between iterations
+            for fld in ("test", "iter", "target"):
+                sub = getattr(node, fld, None)
+                if sub is not None and any(x is target for x in ast.walk(sub)):
+                    out.extend(acc)
+                    return True
+            return visit_block(node.body, acc) or visit_block(node.orelse, acc)
+        for fld, val in ast.iter_fields(node):
+            if isinstance(val, list) and val and isinstance(val[0], ast.stmt):
+                if visit_block(val, acc):
+                    return True
+            elif isinstance(val, list):
+                for c in val:
+                    if isinstance(c, ast.AST) and visit(c, acc):
+                        return True
+            elif isinstance(val, ast.AST):
+                if visit(val, acc):
+                    return True
         return False
     if not visit(root, []):
         raise AnalysisError("path_condition: target is not inside root")
@@ -142,6 +198,12 @@ def truth_table(conds: list[tuple[ast.expr, bool]], atoms: dict[str, list], expe
     from . import miniterp
     bad = []
     keys = list(atoms)
+
+    def mentions_atom(t: ast.expr) -> bool:
+        return any((isinstance(x, ast.Name) and x.id in atoms) or (isinstance(x, ast.Attribute) and ast.unparse(x) in atoms) for x in ast.walk(t))
+    # tests that read none of the atoms do not take part in the case analysis (they restrict the path independently of the decision examined)
+    if oracle is None:
+        conds = [c for c in conds if mentions_atom(c[0])]
     for combo in itertools.product(*(atoms[k] for k in keys)):
         env = dict(zip(keys, combo))
         taken = True
